@@ -930,6 +930,51 @@ Proof.
   repeat split; assumption.
 Qed.
 
+(* ---- what `vh taffytree` really evaluates (Model/TaffyEngineRun.v run_case = Model/TaffyRoot.v real_layout_passes): compute_root_layout -- the
+   root input computed from the root style, ONE memoised query, the root's own layout stored -- and SEVERAL compute_layout calls on the same
+   tree (Proofs/TaffyRootAbs.v; audit, wave 7b: C06_taffy_engine_instance_partial is about one memoised query).  Any dispatch / preprocessing /
+   leaf / key equality, any LOCAL absolute routine, any `Num`, any two fuels, any trees that are keyed-asim (any cache contents) and whose
+   root is not a box-generating absolute node.  PARTIAL for the reasons C06_taffy_engine_instance_partial is (absolute nodes keep their grid
+   lines; their own subtree and content_size unconstrained; the passes are premises) *)
+From TV Require Proofs.TaffyRootAbs.
+Theorem C06_taffy_layout_pass_partial :
+  forall (T : Type) (N : Num T) (teq : T -> T -> bool) (disp : TStyle T -> nat -> TKind) (pre : BStyle T -> BIn T -> BIn T)
+         (abs_child : @AbsChild T) (leaf : TStyle T -> FIn T -> LayoutOutput T),
+    AbsChildLocal abs_child ->
+    forall f f' (t t' : Engine.tree (TStyle T) (FIn T) (LayoutOutput T) (FLay T)) avail u u',
+      EngineAbsKey.asim (TStyle T) (FIn T) (LayoutOutput T) (FLay T) t_visible_absolute _ t_lines fout_eq flay_eq t t' ->
+      t_visible_absolute (style_of (TStyle T) (FIn T) (LayoutOutput T) (FLay T) t) = false ->
+      taffy_compute_root teq disp pre abs_child leaf f t avail = Some u ->
+      taffy_compute_root teq disp pre abs_child leaf f' t' avail = Some u' ->
+      EngineAbsKey.asim (TStyle T) (FIn T) (LayoutOutput T) (FLay T) t_visible_absolute _ t_lines fout_eq flay_eq u u'.
+Proof. intros T N teq disp pre abs_child leaf Hloc f f' t t' avail u u'. exact (TaffyRootAbs.compute_root_asim teq disp pre abs_child leaf Hloc f f' t t' avail u u'). Qed.
+
+Theorem C06_taffy_layout_passes_partial :
+  forall (T : Type) (N : Num T) (teq : T -> T -> bool) (disp : TStyle T -> nat -> TKind) (pre : BStyle T -> BIn T -> BIn T)
+         (abs_child : @AbsChild T) (leaf : TStyle T -> FIn T -> LayoutOutput T),
+    AbsChildLocal abs_child ->
+    forall f f' avails (t t' : Engine.tree (TStyle T) (FIn T) (LayoutOutput T) (FLay T)) ls u ls' u',
+      EngineAbsKey.asim (TStyle T) (FIn T) (LayoutOutput T) (FLay T) t_visible_absolute _ t_lines fout_eq flay_eq t t' ->
+      t_visible_absolute (style_of (TStyle T) (FIn T) (LayoutOutput T) (FLay T) t) = false ->
+      taffy_passes teq disp pre abs_child leaf f t avails = Some (ls, u) ->
+      taffy_passes teq disp pre abs_child leaf f' t' avails = Some (ls', u') ->
+      EngineAbsKey.asim (TStyle T) (FIn T) (LayoutOutput T) (FLay T) t_visible_absolute _ t_lines fout_eq flay_eq u u'.
+Proof. intros T N teq disp pre abs_child leaf Hloc f f' avails t t' ls u ls' u'. exact (TaffyRootAbs.passes_asim teq disp pre abs_child leaf Hloc f f' avails t t' ls u ls' u'). Qed.
+
+(* computed: two passes (available width 300, then 150) of the REAL instance with representation keys on ak / ak' (above): both succeed; the
+   boxes after the second pass coincide outside the absolute node's subtree, the root's own box (200 x 20) included *)
+Example C06_taffy_layout_passes_example :
+  match real_layout_passes xq_seqb 8 ak [ex_avail 300%Z; ex_avail 150%Z], real_layout_passes xq_seqb 8 ak' [ex_avail 300%Z; ex_avail 150%Z] with
+  | Some (_, u), Some (_, u') =>
+      boxes_are (bxz u)  [(0,0,200,20); (0,0,200,10); (0,0,20,10); (50,0,40,15); (0,0,33,44); (50,0,50,10); (0,10,10,10)]%Z
+      && boxes_are (bxz u') [(0,0,200,20); (0,0,200,10); (0,0,20,10); (50,0,99,77); (50,0,50,10); (0,10,10,10)]%Z
+  | _, _ => false
+  end = true.
+Proof. vm_compute. reflexivity. Qed.
+
 Print Assumptions C06_grid_algorithm_abs_blind_refuted_no_panic.
+Print Assumptions C06_taffy_layout_pass_partial.
+Print Assumptions C06_taffy_layout_passes_partial.
+Print Assumptions C06_taffy_layout_passes_example.
 Print Assumptions C06_grid_algorithm_abs_blind_lines_example.
 Print Assumptions C06_taffy_engine_example.
